@@ -30,8 +30,7 @@ reg('C01', module='c01', level='exploration',
                  'Int/Real quantifiers evaluated over finite domains D '
                  '(property is stated for every non-empty domain)',
                  'interpretations with a division by zero are skipped'],
-    require={'quick': {'compared': 2000, 'contract_evals': 2000},
-             'thorough': {'compared': 20000, 'contract_evals': 20000}})
+    require={'quick': {'compared': 2000, 'contract_evals': 2000}})
 
 reg('C02', module='c02', level='exploration',
     technique=('runtime monitoring: EagerModel.get_value / get_py_value / '
@@ -53,10 +52,7 @@ reg('C02', module='c02', level='exploration',
                  'model have no documented default: an exception is accepted'],
     require={'quick': {'values_compared': 2000, 'contract_evals': 2000,
                        'satisfies_compared': 200,
-                       'nocompletion_values_checked': 20},
-             'thorough': {'values_compared': 20000, 'contract_evals': 20000,
-                          'satisfies_compared': 2000,
-                          'nocompletion_values_checked': 200}})
+                       'nocompletion_values_checked': 20}})
 
 reg('C03', module='c03', level='exploration',
     technique=('runtime monitoring: application matrix of every public '
@@ -80,10 +76,7 @@ reg('C03', module='c03', level='exploration',
                  'any exception type counts as rejection'],
     require={'quick': {'rejections_observed': 5000,
                        'acceptances_observed': 500,
-                       'nodes_typed_by_create_node_monitor': 5000},
-             'thorough': {'rejections_observed': 50000,
-                          'acceptances_observed': 2000,
-                          'nodes_typed_by_create_node_monitor': 100000}})
+                       'nodes_typed_by_create_node_monitor': 5000}})
 
 reg('C04', module='c04', level='exploration',
     technique=('runtime monitoring: shadow hash-consing table on '
@@ -106,12 +99,7 @@ reg('C04', module='c04', level='exploration',
     require={'quick': {'identity_checks': 5000, 'accessor_checks': 5000,
                        'spelling_checks': 300, 'normalize_checks': 200,
                        'array_value_get_checks': 2000,
-                       'table_entries_walked': 10000},
-             'thorough': {'identity_checks': 100000,
-                          'accessor_checks': 100000, 'spelling_checks': 300,
-                          'normalize_checks': 5000,
-                          'array_value_get_checks': 50000,
-                          'table_entries_walked': 100000}})
+                       'table_entries_walked': 10000}})
 
 reg('C05', module='c05', level='exploration',
     technique=('runtime monitoring: FNode.substitute / MGSubstituter / '
@@ -133,9 +121,7 @@ reg('C05', module='c05', level='exploration',
                  'literal (array-value indexes, Pow exponents) are not '
                  'replaced'],
     require={'quick': {'lemma_compared': 1500, 'exact_compared': 800,
-                       'interp_compared': 500, 'contract_evals': 3000},
-             'thorough': {'lemma_compared': 20000, 'exact_compared': 10000,
-                          'interp_compared': 5000, 'contract_evals': 40000}})
+                       'interp_compared': 500, 'contract_evals': 3000}})
 
 reg('C06', module='c06', level='exploration',
     technique=('runtime monitoring: every derived constructor / infix form '
@@ -158,9 +144,7 @@ reg('C06', module='c06', level='exploration',
                  '(larger k cannot be written as a constant of that width)'],
     exhaustive={'quick': False, 'thorough': False},
     require={'quick': {'argument_tuples_evaluated': 50000,
-                       'sbv_checked': 100, 'misc_checked': 4},
-             'thorough': {'argument_tuples_evaluated': 100000,
-                          'sbv_checked': 100, 'misc_checked': 4}})
+                       'sbv_checked': 100, 'misc_checked': 4}})
 
 reg('C12', module='c12', level='exploration',
     technique=('runtime monitoring: get_free_variables / get_atoms / is_qf / '
@@ -182,12 +166,7 @@ reg('C12', module='c12', level='exploration',
     require={'quick': {'free_vars_compared': 3000, 'atoms_compared': 1500,
                        'sizes_compared': 30000, 'types_compared': 3000,
                        'atom_skeleton_checks': 3000,
-                       'dependence_checks': 1000},
-             'thorough': {'free_vars_compared': 50000,
-                          'atoms_compared': 20000, 'sizes_compared': 300000,
-                          'types_compared': 50000,
-                          'atom_skeleton_checks': 30000,
-                          'dependence_checks': 10000}})
+                       'dependence_checks': 1000}})
 
 reg('C13', module='c13', level='exploration',
     technique=('runtime monitoring: get_logic / get_theory / script logic '
@@ -215,11 +194,7 @@ reg('C13', module='c13', level='exploration',
                  'script logics (no such flags in the standard logics)'],
     require={'quick': {'detections_compared': 3000, 'logic_triples': 300000,
                        'closer_checked': 30000, 'factory_selections': 300,
-                       'theory_combines': 500},
-             'thorough': {'detections_compared': 50000,
-                          'logic_triples': 300000, 'closer_checked': 40000,
-                          'factory_selections': 300,
-                          'theory_combines': 500}})
+                       'theory_combines': 500}})
 
 reg('C10', module='c10', level='exploration',
     technique=('runtime monitoring: outputs of nnf / prenex / aig / '
@@ -245,9 +220,7 @@ reg('C10', module='c10', level='exploration',
                        'proc_aig': 1500, 'proc_times_distributor': 500,
                        'proc_propagate_toplevel': 500,
                        'proc_qelim_shannon': 800, 'proc_qelim_selfsub': 800,
-                       'proc_factory_qelim_selfsub': 300},
-             'thorough': {'equivalences_compared': 100000,
-                          'shapes_checked': 50000}})
+                       'proc_factory_qelim_selfsub': 300}})
 
 reg('C11', module='c11', level='exploration',
     technique=('runtime monitoring: CNF / Ackermannization outputs checked '
@@ -270,9 +243,7 @@ reg('C11', module='c11', level='exploration',
                  'the quantifier text of the property)'],
     require={'quick': {'cnf_compared': 10000, 'ack_compared': 1000,
                        'shapes_checked': 10000, 'ack_models_backward': 5000,
-                       'ack_models_forward': 5000},
-             'thorough': {'cnf_compared': 100000, 'ack_compared': 10000,
-                          'shapes_checked': 100000}})
+                       'ack_models_forward': 5000}})
 
 reg('C14', module='c14', level='exploration',
     technique=('runtime monitoring: twin environments - the same query after '
@@ -295,10 +266,7 @@ reg('C14', module='c14', level='exploration',
                  'object addresses)'],
     require={'quick': {'twin_comparisons': 4000, 'history_calls': 200000,
                        'requeried_answers': 50000,
-                       'constant_sequence_checks': 100},
-             'thorough': {'twin_comparisons': 20000,
-                          'history_calls': 1000000,
-                          'requeried_answers': 200000}})
+                       'constant_sequence_checks': 100}})
 
 reg('C15', module='c15', level='fault_enumeration',
     technique=('runtime monitoring with fault injection: twin environments, '
@@ -318,9 +286,7 @@ reg('C15', module='c15', level='fault_enumeration',
                 'walk_* functions, i.e. where an UnsupportedOperatorError '
                 'or type error would originate'),
     assumptions=['results are compared modulo names of fresh symbols'],
-    require={'quick': {'failures_injected': 2000, 'probes_compared': 10000},
-             'thorough': {'failures_injected': 50000,
-                          'probes_compared': 300000}})
+    require={'quick': {'failures_injected': 2000, 'probes_compared': 10000}})
 
 reg('C16', module='c16', level='exploration',
     technique=('runtime monitoring: SmtLibScript.get_last_formula and '
@@ -349,9 +315,7 @@ reg('C16', module='c16', level='exploration',
     require={'quick': {'script_compared': 200000,
                        'script_parsed_compared': 1000,
                        'solver_steps_compared': 50000,
-                       'verdicts_compared': 9},
-             'thorough': {'script_compared': 5000000,
-                          'solver_steps_compared': 5000000}})
+                       'verdicts_compared': 9}})
 
 reg('C19', module='c19', level='exploration',
     technique=('runtime monitoring: real Portfolio objects over reference '
@@ -384,12 +348,7 @@ reg('C19', module='c19', level='exploration',
                  '(a solver that runs for ever is not a failure)'],
     require={'quick': {'scenarios_completed': 150, 'verdicts_observed': 300,
                        'models_checked': 80, 'all_failed_reported_error': 10,
-                       'verdicts_with_failed_members': 40, 'near_ties': 40},
-             'thorough': {'scenarios_completed': 3000,
-                          'verdicts_observed': 6000, 'models_checked': 1500,
-                          'all_failed_reported_error': 300,
-                          'verdicts_with_failed_members': 800,
-                          'near_ties': 800}})
+                       'verdicts_with_failed_members': 40, 'near_ties': 40}})
 
 reg('C20', module='c20', level='exploration',
     technique=('runtime monitoring: per-node callback counts observed from '
@@ -414,9 +373,7 @@ reg('C20', module='c20', level='exploration',
                  'output size by construction)'],
     shards={'quick': 16, 'thorough': 16},
     require={'quick': {'diamond_measurements': 400, 'deep_chains_ok': 300,
-                       'callbacks_counted': 100000},
-             'thorough': {'diamond_measurements': 400,
-                          'deep_chains_ok': 300}})
+                       'callbacks_counted': 100000}})
 
 reg('C18', module='c18', level='exploration',
     technique=('runtime monitoring: pySMT optimiser mix-ins run over a '
@@ -440,9 +397,7 @@ reg('C18', module='c18', level='exploration',
                  'used', 'all optima are attained (bounded domains)'],
     require={'quick': {'optimisations_run': 3000, 'optima_compared': 2000,
                        'stack_roundtrips': 2000, 'mode_pareto': 500,
-                       'mode_lexicographic': 500},
-             'thorough': {'optimisations_run': 100000,
-                          'optima_compared': 80000}})
+                       'mode_lexicographic': 500}})
 
 reg('C07', module='c07', level='exploration',
     technique=('runtime monitoring: text written by to_smtlib / '
@@ -467,8 +422,7 @@ reg('C07', module='c07', level='exploration',
                  'or backslash', '(/ n m) over numerals is accepted as a '
                  'rational literal'],
     require={'quick': {'texts_compared': 3000, 'how_dag': 800,
-                       'how_script-dag': 300},
-             'thorough': {'texts_compared': 100000}})
+                       'how_script-dag': 300}})
 
 reg('C17', module='c17', level='exploration',
     technique=('runtime monitoring: SmtLibSolver (obtained through '
@@ -492,8 +446,7 @@ reg('C17', module='c17', level='exploration',
                  'sorts without functions)'],
     require={'quick': {'histories': 800, 'api_calls': 8000,
                        'commands_logged': 8000, 'verdicts_compared': 1500,
-                       'shortcuts_compared': 50},
-             'thorough': {'histories': 20000, 'api_calls': 200000}})
+                       'shortcuts_compared': 50}})
 
 reg('C08', module='c08', level='exploration',
     technique=('runtime monitoring: SMT-LIB text generated with syntactic '
@@ -524,11 +477,7 @@ reg('C08', module='c08', level='exploration',
                  'fragment the generator writes; quantifiers are evaluated '
                  'over small finite domains on both sides'],
     require={'quick': {'scripts_compared': 1500, 'terms_compared': 4000,
-                       'malformed_variants': 400, 'models_compared': 100},
-             'thorough': {'scripts_compared': 100000,
-                          'terms_compared': 300000,
-                          'malformed_variants': 30000,
-                          'models_compared': 10000}})
+                       'malformed_variants': 400, 'models_compared': 100}})
 
 reg('C09', module='c09', level='exploration',
     technique=('runtime monitoring: print/parse round trips observed by '
@@ -550,7 +499,4 @@ reg('C09', module='c09', level='exploration',
                  'not HR keywords, string constants without quote/backslash, '
                  'no custom sorts, no String inside Array sorts, no Pow'],
     require={'quick': {'identity_compared': 4000, 'hr_compared': 2000,
-                       'scripts_compared': 1000},
-             'thorough': {'identity_compared': 100000,
-                          'hr_compared': 100000,
-                          'scripts_compared': 50000}})
+                       'scripts_compared': 1000}})
